@@ -1216,6 +1216,8 @@ def pretty_bracketable_iterable(value, ctx, trailing_comment=None):
                     ctx,
                     trailing_comment=trailing_comment
                 )
+            except _InvalidPrinterResult:
+                raise
             except Exception:
                 pass  # render as a normal tuple
         elif _is_namedtuple(value):
